@@ -152,6 +152,15 @@ def main():
     deadline = time.time() + (900 if quick else 7200)
     ex = engine.explore('c05', 'path', args, jobs=ck.jobs, deadline=deadline)
     cands = ck.absorb('apply_component_processing == 11-level law; invalid targets rejected', ex, bounds=dict(configs=len(args)), expect_tags=['processed', 'rejected'])
+    # differential validation: the variables msym computes for a sampled path's model == the natively computed ones
+    for wt in ex.wsamples:
+        if not isinstance(wt.get('arg'), dict) or 'result' not in wt:
+            continue
+        r = native_bump(wt)
+        ck.validated += 1
+        got = r.get('vars') or {}
+        if not r.get('ok') or any(got.get(k) != wt['result'].get(k) for k in ('epoch', 'major', 'minor', 'patch', 'post', 'dev', 'pre_release')):
+            ck.validation_mismatch.append(dict(arg=wt['arg'].get('name'), start=wt['start'], flags=wt['flags'], msym=wt['result'], native={k: r.get(k) for k in ('ok', 'vars', 'err', 'panic')}))
     seen = set()
     for v in cands:
         key = json.dumps(v, sort_keys=True, default=str)
